@@ -314,20 +314,42 @@ Qed.
 
 (* ------------------------------------------------------------------ check_input_section around the generated checks *)
 
-(* Model/InputCheck.v check_completed is the skeleton [check_completed_with] around the hand-written
-   custom checks *)
+(* Model/InputCheck.v check_completed is the skeleton [check_completed_with] around the tail of the
+   hand-written model *)
 Lemma check_completed_is_with fs SC images cfg :
   check_completed fs SC images cfg =
-  check_completed_with (orc fs) SC (check_disparities_from_input fs) (check_images fs images) cfg.
-Proof. reflexivity. Qed.
+  check_completed_with (orc fs) SC (model_custom fs images) cfg.
+Proof.
+  unfold check_completed, check_completed_with, model_custom.
+  destruct (subscript cfg "input") as [inp|]; cbn [bind]; [|reflexivity].
+  destruct (subscript inp "left") as [l|]; cbn [bind]; [|reflexivity].
+  destruct (subscript l "disp") as [ld|]; cbn [bind]; [|reflexivity].
+  destruct (if is_list ld then _ else _) as [rstr|]; cbn [bind]; reflexivity.
+Qed.
 
-(* what check_input_section does after update_conf, with the three custom checks REGENERATED: the
+(* the custom checking of check_input_section as regenerated (which check on which values of the
+   completed configuration, in which order) = the tail of the hand-written model *)
+Lemma gen_check_input_section_custom_eq fs cfg :
+  G.check_input_section_custom fs cfg = model_custom (abs_fs fs) images_checked cfg.
+Proof.
+  unfold G.check_input_section_custom, model_custom, py_subscript.
+  destruct (subscript cfg "input") as [inp|]; cbn [bind andthen]; [|reflexivity].
+  destruct (subscript inp "left") as [l|]; cbn [bind andthen]; [|reflexivity].
+  destruct (subscript l "disp") as [ld|]; cbn [bind andthen]; [|reflexivity].
+  destruct (subscript l "img") as [limg|]; cbn [bind andthen]; [|reflexivity].
+  rewrite gen_check_disparities_from_input_eq. f_equal.
+  destruct (subscript inp "right") as [r|]; cbn [bind andthen]; [|reflexivity].
+  destruct (subscript r "disp") as [rd|]; cbn [bind andthen]; [|reflexivity].
+  destruct (subscript r "img") as [rimg|]; cbn [bind andthen]; [|reflexivity].
+  rewrite gen_check_disparities_from_input_eq, gen_check_images_eq. reflexivity.
+Qed.
+
+(* what check_input_section does after update_conf, with its custom checking REGENERATED: the
    json-checker validation against the regenerated schemas (its two named validators read the file
-   system: is the path openable), then the generated check_disparities_from_input left and right,
-   then the generated check_images *)
+   system: is the path openable), then Gen.CheckFns.check_input_section_custom, i.e. the generated
+   check_disparities_from_input on the left and on the right values, then the generated check_images *)
 Definition gen_check_completed (fs : string -> option rfile) (cfg : jv) : res unit :=
-  check_completed_with (orc (abs_fs fs)) gen_schemas
-    (G.check_disparities_from_input fs) (G.check_images fs) cfg.
+  check_completed_with (orc (abs_fs fs)) gen_schemas (G.check_input_section_custom fs) cfg.
 
 Lemma gen_check_completed_eq fs cfg :
   gen_check_completed fs cfg = pandora_check_completed (abs_fs fs) cfg.
@@ -338,13 +360,7 @@ Proof.
   destruct (subscript inp "left") as [l|]; cbn [bind]; [|reflexivity].
   destruct (subscript l "disp") as [ld|]; cbn [bind]; [|reflexivity].
   destruct (if is_list ld then _ else _) as [rstr|]; cbn [bind]; [|reflexivity].
-  destruct (negb _); [reflexivity|].
-  destruct (subscript l "img") as [limg|]; cbn [bind]; [|reflexivity].
-  rewrite gen_check_disparities_from_input_eq. f_equal.
-  destruct (subscript inp "right") as [r|]; cbn [bind]; [|reflexivity].
-  destruct (subscript r "disp") as [rd|]; cbn [bind]; [|reflexivity].
-  destruct (subscript r "img") as [rimg|]; cbn [bind]; [|reflexivity].
-  rewrite gen_check_disparities_from_input_eq, gen_check_images_eq. reflexivity.
+  destruct (negb _); [reflexivity|]. apply gen_check_input_section_custom_eq.
 Qed.
 
 (* ------------------------------------------------------------------ the C17 theorems on the generated functions *)
